@@ -552,36 +552,27 @@ set_option maxRecDepth 8000 in
 /-- `maxBufSize`, the buffer is created with it and collects both stdout and stderr (`last8k`) -/
 theorem C27_src_output_buffer :
     EventScriptSrc.maxBufSize = SerfModel.EventScript.maxBufSize ∧
-    once "output, _ := circbuf.NewBuffer(maxBufSize)" EventScriptSrc.invokeEventScript = true ∧
-    once "cmd.Stderr = output" EventScriptSrc.invokeEventScript = true ∧ once "cmd.Stdout = output" EventScriptSrc.invokeEventScript = true := by decide
+    once "v4, _ := circbuf.NewBuffer(8192)" EventScriptSrc.invokeEventScript = true ∧
+    once "v7.Stderr = v4" EventScriptSrc.invokeEventScript = true ∧ once "v7.Stdout = v4" EventScriptSrc.invokeEventScript = true := by decide
 
 set_option maxRecDepth 8000 in
 /-- the response gate (`respond`): after `cmd.Wait()` an error returns before the response; a
 response is attempted only for a query with output, with the buffer's content; and the
 default limit is `responseLimit` -/
 theorem C27_src_response_gate :
-    hasBlock ["err = cmd.Wait()", "slowTimer.Stop()", "if err != nil {", "return err", "}",
-      "if query, ok := event.(*serf.Query); ok && output.TotalWritten() > 0 {",
-      "if err := query.Respond(output.Bytes()); err != nil {", "}", "}", "return nil"] EventScriptSrc.invokeEventScript = true ∧
+    hasBlock ["v13 = v7.Wait()", "v15.Stop()", "if v13 != nil {", "return v13", "}", "if v17, v18 := v3.(*serf.Query); v18 && v4.TotalWritten() > 0 {", "if v19 := v17.Respond(v4.Bytes()); v19 != nil {", "}", "}", "return nil"] EventScriptSrc.invokeEventScript = true ∧
     EventScriptSrc.defaultResponseLimit = responseLimit := by decide
 
 set_option maxRecDepth 8000 in
-/-- the environment (`envOf`): the SERF_* literals in order, the tag loop with upper-casing and
+/-- the environment (`envOf`): the eight SERF_* entries as templates (`{}` = an operand; fmt.Sprintf with only %s and `+` are the same template), in order, the tag loop with upper-casing and
 the replacement regexp (`sanitizeChars`), name and Lamport time per event kind -/
 theorem C27_src_environment :
-    EventScriptSrc.envLiterals = ["SERF_EVENT=", "SERF_SELF_NAME=", "SERF_SELF_ROLE=", "SERF_TAG_%s=%s", "SERF_USER_EVENT=",
-      "SERF_USER_LTIME=%d", "SERF_QUERY_NAME=", "SERF_QUERY_LTIME=%d"] ∧
+    EventScriptSrc.envTemplates = ["SERF_EVENT={}", "SERF_SELF_NAME={}", "SERF_SELF_ROLE={}", "SERF_TAG_{}={}", "SERF_USER_EVENT={}",
+      "SERF_USER_LTIME={d}", "SERF_QUERY_NAME={}", "SERF_QUERY_LTIME={d}"] ∧
     EventScriptSrc.sanitizeRegexp = "[^A-Z0-9_]" ∧
-    once "cmd.Env = append(os.Environ(), \"SERF_EVENT=\"+event.EventType().String(), \"SERF_SELF_NAME=\"+self.Name, \"SERF_SELF_ROLE=\"+self.Tags[\"role\"], )" EventScriptSrc.invokeEventScript = true ∧
-    hasBlock ["for name, val := range self.Tags {",
-      "sanitizedName := sanitizeTagRegexp.ReplaceAllString(strings.ToUpper(name), \"_\")",
-      "tag_env := fmt.Sprintf(\"SERF_TAG_%s=%s\", sanitizedName, val)", "cmd.Env = append(cmd.Env, tag_env)", "}"] EventScriptSrc.invokeEventScript = true ∧
-    hasBlock ["switch e := event.(type) {", "case serf.MemberEvent:", "go memberEventStdin(logger, stdin, &e)",
-      "case serf.UserEvent:", "cmd.Env = append(cmd.Env, \"SERF_USER_EVENT=\"+e.Name)",
-      "cmd.Env = append(cmd.Env, fmt.Sprintf(\"SERF_USER_LTIME=%d\", e.LTime))", "go streamPayload(logger, stdin, e.Payload)",
-      "case *serf.Query:", "cmd.Env = append(cmd.Env, \"SERF_QUERY_NAME=\"+e.Name)",
-      "cmd.Env = append(cmd.Env, fmt.Sprintf(\"SERF_QUERY_LTIME=%d\", e.LTime))", "go streamPayload(logger, stdin, e.Payload)",
-      "default:"] EventScriptSrc.invokeEventScript = true := by decide
+    once "v7.Env = append(os.Environ(), \"SERF_EVENT=\"+v3.EventType().String(), \"SERF_SELF_NAME=\"+v2.Name, \"SERF_SELF_ROLE=\"+v2.Tags[\"role\"], )" EventScriptSrc.invokeEventScript = true ∧
+    hasBlock ["for v8, v9 := range v2.Tags {", "v10 := sanitizeTagRegexp.ReplaceAllString(strings.ToUpper(v8), \"_\")", "v11 := \"SERF_TAG_\" + v10 + \"=\" + v9", "v7.Env = append(v7.Env, v11)", "}"] EventScriptSrc.invokeEventScript = true ∧
+    hasBlock ["switch v14 := v3.(type) {", "case serf.MemberEvent:", "go memberEventStdin(v0, v12, &v14)", "case serf.UserEvent:", "v7.Env = append(v7.Env, \"SERF_USER_EVENT=\"+v14.Name)", "v7.Env = append(v7.Env, fmt.Sprintf(\"SERF_USER_LTIME=%d\", v14.LTime))", "go streamPayload(v0, v12, v14.Payload)", "case *serf.Query:", "v7.Env = append(v7.Env, \"SERF_QUERY_NAME=\"+v14.Name)", "v7.Env = append(v7.Env, fmt.Sprintf(\"SERF_QUERY_LTIME=%d\", v14.LTime))", "go streamPayload(v0, v12, v14.Payload)", "default:"] EventScriptSrc.invokeEventScript = true := by decide
 
 set_option maxRecDepth 8000 in
 /-- standard input of a member event (`EventScriptSrc.eventClean`, `tagPairs`, `memberLine`): the replacement
@@ -589,20 +580,15 @@ pairs, the formats, and the one statement that writes a line — name, role and 
 list go through `EventScriptSrc.eventClean` (seeded C27-a moved the escaping to the tag values) -/
 theorem C27_src_member_stdin :
     EventScriptSrc.cleanPairs = [([TAB], [BSL, 116]), ([NL], [BSL, 110])] ∧
-    EventScriptSrc.eventClean = ["v = strings.ReplaceAll(v, \"\\t\", \"\\\\t\")", "v = strings.ReplaceAll(v, \"\\n\", \"\\\\n\")", "return v"] ∧
-    EventScriptSrc.memberFormats = [[37, 115, EQ, 37, 115], [37, 115, TAB, 37, 115, TAB, 37, 115, TAB, 37, 115, NL], [COMMA]] ∧
-    EventScriptSrc.memberEventStdin = ["defer stdin.Close()", "for _, member := range e.Members {", "var tagPairs []string",
-      "for name, value := range member.Tags {", "tagPairs = append(tagPairs, fmt.Sprintf(\"%s=%s\", name, value))", "}",
-      "tags := strings.Join(tagPairs, \",\")",
-      "_, err := stdin.Write(fmt.Appendf(nil, \"%s\\t%s\\t%s\\t%s\\n\", eventClean(member.Name), member.Addr.String(), eventClean(member.Tags[\"role\"]), eventClean(tags)))",
-      "if err != nil {", "return", "}", "}"] := by decide
+    EventScriptSrc.eventClean = ["v0 = strings.ReplaceAll(v0, \"\\t\", \"\\\\t\")", "v0 = strings.ReplaceAll(v0, \"\\n\", \"\\\\n\")", "return v0"] ∧
+    EventScriptSrc.memberFormats = [[123, 125, EQ, 123, 125], [37, 115, TAB, 37, 115, TAB, 37, 115, TAB, 37, 115, NL], [COMMA]] ∧
+    EventScriptSrc.memberEventStdin = ["defer v0.Close()", "for _, v2 := range v1.Members {", "var v3 []string", "for v4, v5 := range v2.Tags {", "v3 = append(v3, v4+\"=\"+v5)", "}", "v6 := strings.Join(v3, \",\")", "_, v7 := v0.Write(fmt.Appendf(nil, \"%s\\t%s\\t%s\\t%s\\n\", eventClean(v2.Name), v2.Addr.String(), eventClean(v2.Tags[\"role\"]), eventClean(v6)))", "if v7 != nil {", "return", "}", "}"] := by decide
 
 set_option maxRecDepth 8000 in
 /-- standard input of a user event / query (`payloadStdin`) -/
 theorem C27_src_payload_stdin :
     EventScriptSrc.payloadChars = [[NL], [NL]] ∧
-    EventScriptSrc.streamPayload = ["defer stdin.Close()", "payload := buf", "if len(payload) > 0 && payload[len(payload)-1] != '\\n' {",
-      "payload = append(payload, '\\n')", "}", "if _, err := stdin.Write(payload); err != nil {", "return", "}"] := by decide
+    EventScriptSrc.streamPayload = ["defer v1.Close()", "v3 := v2", "if len(v3) > 0 && v3[len(v3)-1] != '\\n' {", "v3 = append(v3, '\\n')", "}", "if _, v4 := v1.Write(v3); v4 != nil {", "return", "}"] := by decide
 
 set_option maxRecDepth 8000 in
 /-- parsing (`EventScriptSrc.parseEventScript`, `EventScriptSrc.parseEventFilter`, `parseEntry`): split at the first `=`, the
@@ -610,37 +596,25 @@ empty filter is `*`, entries separated by commas, the name is the rest after the
 (seeded C27-b cut it at the next colon) -/
 theorem C27_src_parsing :
     EventScriptSrc.filterPrefixes = [userPfx, queryPfx] ∧ EventScriptSrc.separators = [[COMMA], [EQ, 35, 50]] ∧
-    once "parts := strings.SplitN(v, \"=\", 2)" EventScriptSrc.parseEventScript = true ∧
-    once "filters := ParseEventFilter(filter)" EventScriptSrc.parseEventScript = true ∧
-    EventScriptSrc.parseEventFilter = ["if v == \"\" {", "v = \"*\"", "}", "events := strings.Split(v, \",\")",
-      "results := make([]EventFilter, 0, len(events))", "for _, event := range events {", "var result EventFilter",
-      "var name string", "if strings.HasPrefix(event, \"user:\") {", "name = event[len(\"user:\"):]", "event = \"user\"",
-      "} else if strings.HasPrefix(event, \"query:\") {", "name = event[len(\"query:\"):]", "event = \"query\"", "}",
-      "result.Event = event", "result.Name = name", "results = append(results, result)", "}", "return results"] := by decide
+    once "v3 := strings.SplitN(v0, \"=\", 2)" EventScriptSrc.parseEventScript = true ∧
+    once "v4 := ParseEventFilter(v1)" EventScriptSrc.parseEventScript = true ∧
+    EventScriptSrc.parseEventFilter = ["if v0 == \"\" {", "v0 = \"*\"", "}", "v1 := strings.Split(v0, \",\")", "v2 := make([]EventFilter, 0, len(v1))", "for _, v3 := range v1 {", "var v4 EventFilter", "var v5 string", "if strings.HasPrefix(v3, \"user:\") {", "v5 = v3[len(\"user:\"):]", "v3 = \"user\"", "} else if strings.HasPrefix(v3, \"query:\") {", "v5 = v3[len(\"query:\"):]", "v3 = \"query\"", "}", "v4.Event = v3", "v4.Name = v5", "v2 = append(v2, v4)", "}", "return v2"] := by decide
 
 set_option maxRecDepth 8000 in
 /-- matching and dispatch (`EventScriptSrc.invoke`, `runsOf`) -/
 theorem C27_src_matching :
-    EventScriptSrc.invoke = ["if s.Event == \"*\" {", "return true", "}", "if e.EventType().String() != s.Event {", "return false", "}",
-      "if s.Event == \"user\" && s.Name != \"\" {", "userE, ok := e.(serf.UserEvent)", "if !ok {", "return false", "}",
-      "if userE.Name != s.Name {", "return false", "}", "}",
-      "if s.Event == \"query\" && s.Name != \"\" {", "query, ok := e.(*serf.Query)", "if !ok {", "return false", "}",
-      "if query.Name != s.Name {", "return false", "}", "}", "return true"] ∧
-    hasBlock ["for _, script := range h.Scripts {", "if !script.Invoke(e) {", "continue", "}",
-      "err := invokeEventScript(h.Logger, script.Script, self, e)"] EventScriptSrc.handleEvent = true := by decide
+    EventScriptSrc.invoke = ["if v0.Event == \"*\" {", "return true", "}", "if v1.EventType().String() != v0.Event {", "return false", "}", "if v0.Event == \"user\" && v0.Name != \"\" {", "v2, v3 := v1.(serf.UserEvent)", "if !v3 {", "return false", "}", "if v2.Name != v0.Name {", "return false", "}", "}", "if v0.Event == \"query\" && v0.Name != \"\" {", "v4, v5 := v1.(*serf.Query)", "if !v5 {", "return false", "}", "if v4.Name != v0.Name {", "return false", "}", "}", "return true"] ∧
+    hasBlock ["for _, v3 := range v0.Scripts {", "if !v3.Invoke(v1) {", "continue", "}", "v4 := invokeEventScript(v0.Logger, v3.Script, v2, v1)"] EventScriptSrc.handleEvent = true := by decide
 
 set_option maxRecDepth 8000 in
 /-- reload (`updateScripts`, `swapIn`): UpdateScripts stores the list, HandleEvent swaps it in
 when it is non-nil — NOT "non-empty" (seeded C27-d) — before dispatching, and the agent builds the
 list as a non-nil slice even without handlers -/
 theorem C27_src_reload :
-    EventScriptSrc.updateScripts = ["h.scriptLock.Lock()", "defer h.scriptLock.Unlock()", "h.newScripts = scripts"] ∧
-    hasBlock ["h.scriptLock.Lock()", "if h.newScripts != nil {", "h.Scripts = h.newScripts", "h.newScripts = nil", "}",
-      "h.scriptLock.Unlock()"] EventScriptSrc.handleEvent = true ∧
-    before "h.scriptLock.Unlock()" "for _, script := range h.Scripts {" EventScriptSrc.handleEvent = true ∧
-    EventScriptSrc.configEventScripts = ["result := make([]EventScript, 0, len(c.EventHandlers))",
-      "for _, v := range c.EventHandlers {", "part := ParseEventScript(v)", "result = append(result, part...)", "}",
-      "return result"] := by decide
+    EventScriptSrc.updateScripts = ["v0.scriptLock.Lock()", "defer v0.scriptLock.Unlock()", "v0.newScripts = v1"] ∧
+    hasBlock ["v0.scriptLock.Lock()", "if v0.newScripts != nil {", "v0.Scripts = v0.newScripts", "v0.newScripts = nil", "}", "v0.scriptLock.Unlock()"] EventScriptSrc.handleEvent = true ∧
+    before "v0.scriptLock.Unlock()" "for _, v3 := range v0.Scripts {" EventScriptSrc.handleEvent = true ∧
+    EventScriptSrc.configEventScripts = ["v1 := make([]EventScript, 0, len(v0.EventHandlers))", "for _, v2 := range v0.EventHandlers {", "v3 := ParseEventScript(v2)", "v1 = append(v1, v3...)", "}", "return v1"] := by decide
 
 end Src
 
